@@ -13,6 +13,8 @@
 //!     layouts; both outcomes are logged (`ev: meta`).
 #[path = "../zf.rs"]
 mod zf;
+#[path = "../zfr.rs"]
+mod zfr;
 use serde_json::{json, Value};
 use verif_harness::common::*;
 
@@ -22,6 +24,15 @@ fn outcome(data: &[u8], origin: Option<&[u8]>, class: Option<u16>) -> Value {
     observe(|| zf::read_all(data, &zf::ReadOpts { origin, default_class: class, allow_invalid: false }))
 }
 
+/// The same through a construction route, with or without class checking;
+/// `offs`: Zonefile::current_offset() before the first and after every call.
+fn outcome_via(route: &str, data: &[u8], origin: Option<&[u8]>, class: Option<u16>, allow_invalid: bool, offs: &mut Vec<u64>) -> Value {
+    let mut o = vec![];
+    let r = observe(|| zfr::read_all_route(route, data, &zf::ReadOpts { origin, default_class: class, allow_invalid }, &mut o));
+    *offs = o;
+    r
+}
+
 // ------------------------------------------------------------- (a) inputs
 const SPECIALS: &[u8] = b" \t\r\n();\"\\.@$#0159azAZ";
 const WORDS: &[&str] = &[
@@ -29,6 +40,10 @@ const WORDS: &[&str] = &[
     "TXT", "txt", "NS", "MX", "HINFO", "CNAME", "A", "TYPE16", "TYPE65280", "\\#", "0161", "2", "10",
     "$ORIGIN", "$TTL", "$INCLUDE", "$ttl", "a..b", "a\x7f", "\\a\x7f", "SVCB", "port=1", "\"alpn=h2\"", "alpn=\"h3\"", "a.b", ".", "\\065", "\\.", "(", ")", ";c", "\n", "\n",
     "\n ", "\r\n", "\t", " ", "  ", "\"", "\\", "65535", "65536", "x\"y\"", "\\@", "\\$TTL",
+    // the symbol converters, the string scanner, tokens ended by a delimiter without a blank
+    "DNSKEY", "DS", "OPENPGPKEY", "TLSA", "NSEC3PARAM", "NSEC3", "NSEC", "SOA", "256", "3", "8", "AwEA", "QQ==", "QUI=", "=", "A",
+    "0f", "0F1", "-", "VV", "\u{80}", "\u{e9}", "\u{800}", "\u{10000}", "A\u{80}A", "@(", "(@)", "@;", "@\"", "\"@\"(", "\"$INCLUDE\"",
+    "\"f\\ g\"", "\"\\f\"", "\"$T\\TL\"", "\\#(", "(\\#)",
 ];
 
 fn random_octets(rng: &mut Rng, n: usize) -> Vec<u8> {
@@ -117,13 +132,22 @@ enum Rd {
     Generic(u16, Vec<u8>),
     /// SVCB / HTTPS: type, priority, target, parameters (key text, value text) as written
     Svcb(u16, u16, Vec<Vec<u8>>, Vec<(Vec<u8>, Vec<u8>)>),
+    /// data through a symbol converter: type, the numeric fields in front, the octets,
+    /// Base 64 (true) or Base 16
+    Conv(u16, Vec<u32>, Vec<u8>, bool),
+    /// NSEC3PARAM: algorithm, flags, iterations, salt
+    N3p(u8, u8, u16, Vec<u8>),
+    /// SOA: mname, rname, five numbers
+    Soa(Vec<Vec<u8>>, Vec<Vec<u8>>, [u32; 5]),
 }
 
 #[derive(Clone)]
 enum Ent {
     Origin(Vec<Vec<u8>>),
     Ttl(u32),
-    Rec { owner: Vec<Vec<u8>>, ttl: u32, rd: Rd },
+    /// $INCLUDE with a path (printable ASCII) and maybe an origin
+    Include(Vec<u8>, Option<Vec<Vec<u8>>>),
+    Rec { owner: Vec<Vec<u8>>, ttl: u32, class: u16, rd: Rd },
 }
 
 const OCTS: &[u8] = b"ab.xy \";()\\@$#\x00\x7f\xff019AZ-_";
@@ -156,10 +180,22 @@ fn rand_file(rng: &mut Rng) -> Vec<Ent> {
     let mut f = vec![];
     let n = 1 + rng.below(5);
     let mut last_owner: Option<Vec<Vec<u8>>> = None;
+    // half of the files start with the SOA (what zonetree::parsed asks for)
+    if rng.chance(1, 2) {
+        let apex = rng.pick(&origins).clone();
+        last_owner = Some(apex.clone());
+        f.push(Ent::Rec { owner: apex, ttl: 3600, class: 1, rd: Rd::Soa(rand_name(rng, &origins), rand_name(rng, &origins),
+            [rng.below(1 << 31) as u32, 7200, 0, 65536, rng.below(100000) as u32]) });
+    }
     for _ in 0..n {
-        match rng.below(8) {
+        match rng.below(9) {
             0 => f.push(Ent::Origin(rng.pick(&origins).clone())),
             1 => f.push(Ent::Ttl(*rng.pick(&[0u32, 5, 7, 3600, 2147483647]))),
+            8 => {
+                let k = 1 + rng.below(6) as usize;
+                let path: Vec<u8> = (0..k).map(|_| *rng.pick(b"fg/. \"\\;()db-_@$#~!")).collect();
+                f.push(Ent::Include(path, if rng.chance(1, 3) { Some(rand_name(rng, &origins)) } else { None }));
+            }
             _ => {
                 let owner = match (&last_owner, rng.chance(1, 3)) {
                     (Some(o), true) => o.clone(),
@@ -167,7 +203,13 @@ fn rand_file(rng: &mut Rng) -> Vec<Ent> {
                 };
                 last_owner = Some(owner.clone());
                 let ttl = *rng.pick(&[0u32, 5, 7, 3600, 3600, 86400]);
-                let rd = match rng.below(8) {
+                let rd = match rng.below(12) {
+                    8 => { let k = rng.below(9) as usize; Rd::Conv(*rng.pick(&[48u16, 60]), vec![*rng.pick(&[0u32, 256, 257, 65535]), 3, *rng.pick(&[8u32, 13, 255])], rng.bytes(k), true) }
+                    9 => { let k = rng.below(7) as usize; if rng.chance(1, 2) { Rd::Conv(61, vec![], rng.bytes(k), true) }
+                           else { Rd::Conv(*rng.pick(&[43u16, 59]), vec![rng.below(65536) as u32, *rng.pick(&[8u32, 13]), *rng.pick(&[1u32, 2, 4])], rng.bytes(k), false) } }
+                    10 => { let k = rng.below(5) as usize; if rng.chance(1, 2) { Rd::Conv(52, vec![rng.below(4) as u32, rng.below(2) as u32, rng.below(3) as u32], rng.bytes(k), false) }
+                            else { Rd::N3p(1, rng.below(2) as u8, rng.below(200) as u16, rng.bytes(k)) } }
+                    11 => Rd::Name(*rng.pick(&[2u16, 5, 5]), rand_name(rng, &origins)),
                     0 | 1 => Rd::Txt((0..1 + rng.below(3)).map(|_| rand_octs(rng, 0, 5)).collect()),
                     2 => Rd::Name(*rng.pick(&[2u16, 5, 12, 39]), rand_name(rng, &origins)),
                     3 => Rd::Mx(*rng.pick(&[0u16, 10, 65535]), rand_name(rng, &origins)),
@@ -193,7 +235,9 @@ fn rand_file(rng: &mut Rng) -> Vec<Ent> {
                     }
                     _ => Rd::Generic(*rng.pick(&[65280u16, 16, 1234]), { let k = rng.below(5) as usize; rng.bytes(k) }),
                 };
-                f.push(Ent::Rec { owner, ttl, rd });
+                // now and then a record of another class: an error unless allow_invalid()
+                let class = if rng.chance(1, 12) { 3 } else { 1 };
+                f.push(Ent::Rec { owner, ttl, class, rd });
             }
         }
     }
@@ -263,9 +307,54 @@ fn str_text(rng: &mut Rng, s: &[u8]) -> Vec<u8> {
     out
 }
 
-struct Lay { depth: u32 }
+struct Lay { depth: u32, tight: bool }
+
+fn base64_text(data: &[u8]) -> Vec<u8> {
+    const A: &[u8] = b"ABCDEFGHIJKLMNOPQRSTUVWXYZabcdefghijklmnopqrstuvwxyz0123456789+/";
+    let mut out = vec![];
+    for c in data.chunks(3) {
+        let n = (c[0] as u32) << 16 | (*c.get(1).unwrap_or(&0) as u32) << 8 | *c.get(2).unwrap_or(&0) as u32;
+        out.push(A[(n >> 18) as usize & 63]);
+        out.push(A[(n >> 12) as usize & 63]);
+        out.push(if c.len() > 1 { A[(n >> 6) as usize & 63] } else { b'=' });
+        out.push(if c.len() > 2 { A[n as usize & 63] } else { b'=' });
+    }
+    out
+}
+
+/// a token for the string scanner (printable ASCII octets): plain with the
+/// necessary escapes, quoted, and either with further simple escapes; a
+/// leading `$` stays as it is (it makes the control word)
+fn str_token(rng: &mut Rng, s: &[u8], out: &mut Vec<u8>) {
+    let quoted = s.is_empty() || rng.chance(1, 2);
+    if quoted { out.push(b'"'); }
+    for (i, b) in s.iter().enumerate() {
+        let must = if quoted { matches!(*b, b'"' | b'\\') } else { matches!(*b, b' ' | b'"' | b'\\' | b';' | b'(' | b')') };
+        let may = !b.is_ascii_digit() && !(i == 0 && *b == b'$');
+        if must || (may && rng.chance(1, 5)) { out.push(b'\\'); }
+        out.push(*b);
+    }
+    if quoted { out.push(b'"'); }
+}
 
 fn gap(rng: &mut Rng, lay: &mut Lay, out: &mut Vec<u8>) {
+    // tight: no blank at all, the token is ended by a parenthesis (an opening
+    // one, or the closing one of an open group) and the next one starts right
+    // behind one.  (Not in front of SVCB parameters: a quoted token directly
+    // behind a parenthesis is glued to the token before it.)
+    if lay.tight && rng.chance(1, 2) {
+        if lay.depth > 0 && rng.chance(1, 2) {
+            out.push(b')');
+            lay.depth -= 1;
+            if rng.chance(1, 2) { out.push(b'('); lay.depth += 1; }
+        } else {
+            out.push(b'(');
+            lay.depth += 1;
+            if rng.chance(1, 3) { out.push(b'\n'); }
+            if rng.chance(1, 2) { out.push(b')'); lay.depth -= 1; }
+        }
+        return;
+    }
     // at least one white-space octet; maybe parentheses, line breaks inside them, comments
     out.extend_from_slice(*rng.pick(&[&b" "[..], b" ", b"\t", b"  ", b" \r", b"\t "]));
     if rng.chance(1, 6) {
@@ -313,9 +402,9 @@ fn render(rng: &mut Rng, f: &[Ent]) -> Vec<u8> {
     let mut last_owner: Option<Vec<Vec<u8>>> = None;
     let mut dfl_ttl: u32 = 3600;
     let mut dollar = false;
-    let mut class_set = false;
+    let mut first_class: Option<u16> = None;
     for e in f {
-        let mut lay = Lay { depth: 0 };
+        let mut lay = Lay { depth: 0, tight: rng.chance(1, 4) };
         match e {
             Ent::Origin(n) => {
                 out.extend_from_slice(&mixed_case(rng, "$ORIGIN"));
@@ -332,9 +421,23 @@ fn render(rng: &mut Rng, f: &[Ent]) -> Vec<u8> {
                 dfl_ttl = *v;
                 dollar = true;
             }
-            Ent::Rec { owner, ttl, rd } => {
+            Ent::Include(path, inc_origin) => {
+                // the control word and the path go through the string scanner:
+                // plain, quoted, escaped, quoted and escaped (no decimal escapes there)
+                let word = mixed_case(rng, "$INCLUDE");
+                str_token(rng, &word, &mut out);
+                gap(rng, &mut lay, &mut out);
+                str_token(rng, path, &mut out);
+                if let Some(n) = inc_origin {
+                    gap(rng, &mut lay, &mut out);
+                    out.extend_from_slice(&name_text(rng, n, &origin, false));
+                }
+                eol(rng, &mut lay, &mut out);
+            }
+            Ent::Rec { owner, ttl, class, rd } => {
                 if last_owner.as_ref() == Some(owner) && rng.chance(1, 2) {
                     // inherited owner: the line starts with white space
+                    out.push(b' ');
                 } else {
                     out.extend_from_slice(&name_text(rng, owner, &origin, true));
                 }
@@ -343,15 +446,17 @@ fn render(rng: &mut Rng, f: &[Ent]) -> Vec<u8> {
                 if !(*ttl == dfl_ttl && rng.chance(1, 2)) {
                     ct.push(if rng.chance(1, 8) { format!("+{}", ttl) } else { ttl.to_string() }.into_bytes());
                 }
-                if !(class_set && rng.chance(1, 2)) {
-                    ct.push(if rng.chance(1, 6) { mixed_case(rng, "CLASS1") } else { mixed_case(rng, "IN") });
+                if !(first_class == Some(*class) && rng.chance(1, 2)) {
+                    let (num, mn) = if *class == 3 { ("CLASS3", "CH") } else { ("CLASS1", "IN") };
+                    ct.push(if rng.chance(1, 6) { mixed_case(rng, num) } else { mixed_case(rng, mn) });
                 }
                 if ct.len() == 2 && rng.chance(1, 2) { ct.swap(0, 1); }
                 for t in ct {
                     out.extend_from_slice(&t);
                     gap(rng, &mut lay, &mut out);
                 }
-                let t = match rd { Rd::Txt(_) => 16, Rd::Name(t, _) => *t, Rd::Mx(..) => 15, Rd::Hinfo(..) => 13, Rd::Generic(t, _) => *t, Rd::Svcb(t, ..) => *t };
+                let t = match rd { Rd::Txt(_) => 16, Rd::Name(t, _) => *t, Rd::Mx(..) => 15, Rd::Hinfo(..) => 13, Rd::Generic(t, _) => *t, Rd::Svcb(t, ..) => *t,
+                                   Rd::Conv(t, ..) => *t, Rd::N3p(..) => 51, Rd::Soa(..) => 6 };
                 out.extend_from_slice(&type_tok(rng, t));
                 let generic_known = matches!(rd, Rd::Generic(..));
                 match rd {
@@ -370,7 +475,50 @@ fn render(rng: &mut Rng, f: &[Ent]) -> Vec<u8> {
                         gap(rng, &mut lay, &mut out);
                         out.extend_from_slice(&str_text(rng, s));
                     },
+                    Rd::Conv(_, fields, data, b64) => {
+                        for v in fields {
+                            gap(rng, &mut lay, &mut out);
+                            out.extend_from_slice(v.to_string().as_bytes());
+                        }
+                        // the text of the data, cut into tokens at random places
+                        let text: Vec<u8> = if *b64 { base64_text(data) } else {
+                            data.iter().flat_map(|b| format!("{:02x}", b).into_bytes())
+                                .map(|c| if rng.chance(1, 3) { c.to_ascii_uppercase() } else { c }).collect() };
+                        let mut i = 0;
+                        while i < text.len() {
+                            gap(rng, &mut lay, &mut out);
+                            let k = 1 + rng.below(6) as usize;
+                            let piece = &text[i..text.len().min(i + k)];
+                            // a piece may be quoted, a character may be escaped
+                            let q = rng.chance(1, 8);
+                            if q { out.push(b'"'); }
+                            for c in piece { if !c.is_ascii_digit() && rng.chance(1, 10) { out.push(b'\\'); } out.push(*c); }
+                            if q { out.push(b'"'); }
+                            i += k;
+                        }
+                    }
+                    Rd::N3p(alg, flags, iter, salt) => {
+                        for v in [*alg as u32, *flags as u32, *iter as u32] {
+                            gap(rng, &mut lay, &mut out);
+                            out.extend_from_slice(v.to_string().as_bytes());
+                        }
+                        gap(rng, &mut lay, &mut out);
+                        if salt.is_empty() { out.push(b'-'); } else {
+                            for b in salt { out.extend_from_slice(if rng.chance(1, 2) { format!("{:02x}", b) } else { format!("{:02X}", b) }.as_bytes()); }
+                        }
+                    }
+                    Rd::Soa(m, r, nums) => {
+                        gap(rng, &mut lay, &mut out);
+                        out.extend_from_slice(&name_text(rng, m, &origin, false));
+                        gap(rng, &mut lay, &mut out);
+                        out.extend_from_slice(&name_text(rng, r, &origin, false));
+                        for v in nums {
+                            gap(rng, &mut lay, &mut out);
+                            out.extend_from_slice(v.to_string().as_bytes());
+                        }
+                    }
                     Rd::Svcb(_, prio, target, ps) => {
+                        lay.tight = false;
                         gap(rng, &mut lay, &mut out);
                         out.extend_from_slice(prio.to_string().as_bytes());
                         gap(rng, &mut lay, &mut out);
@@ -405,7 +553,7 @@ fn render(rng: &mut Rng, f: &[Ent]) -> Vec<u8> {
                 let _ = generic_known;
                 eol(rng, &mut lay, &mut out);
                 last_owner = Some(owner.clone());
-                class_set = true;
+                if first_class.is_none() { first_class = Some(*class); }
                 if !dollar { dfl_ttl = *ttl; }
             }
         }
@@ -527,7 +675,11 @@ fn main() {
         zf::tick(&zf::show(&data));
         let class = if rng.chance(1, 4) { None } else { Some(1u16) };
         let origin = if rng.chance(1, 6) { None } else { Some(ORIGIN) };
-        let res = outcome(&data, origin, class);
+        // construction route and class checking vary; current_offset() is watched
+        let route = *rng.pick(zf::CTOR_ROUTES);
+        let ai = rng.chance(1, 5);
+        let mut offs = vec![];
+        let res = outcome_via(route, &data, origin, class, ai, &mut offs);
         let is_panic = res.get("panic").is_some();
         if is_panic { panics += 1; } else if res["err"] == json!(true) { errs += 1; } else { oks += 1; }
         if data.len() > log_max { long_inputs += 1; }
@@ -535,7 +687,8 @@ fn main() {
             logged += 1;
             tw.event(json!({"ev": "read", "text": json_bytes(&data),
                             "origin": json_bytes(origin.unwrap_or(&[])),
-                            "class": class.map(|c| c as i64).unwrap_or(-1), "res": res}));
+                            "class": class.map(|c| c as i64).unwrap_or(-1), "res": res,
+                            "route": route, "ai": ai, "offs": offs}));
         }
     }
     // (c) hostile sizes: very long single tokens and lines.  Only the class
@@ -558,13 +711,22 @@ fn main() {
         let f = rand_file(&mut rng);
         let a = render(&mut rng, &f);
         let b = render(&mut rng, &f);
+        // both renderings are read under the same configuration, through
+        // different construction routes; zonetree::parsed reads them as well
+        let ai = rng.chance(1, 3);
+        let (route_a, route_b) = (*rng.pick(zf::CTOR_ROUTES), *rng.pick(zf::CTOR_ROUTES));
+        let opts = zf::ReadOpts { origin: Some(ORIGIN), default_class: None, allow_invalid: ai };
+        let (mut oa, mut ob) = (vec![], vec![]);
         zf::tick(&zf::show(&a));
-        let ra = outcome(&a, Some(ORIGIN), None);
+        let ra = outcome_via(route_a, &a, Some(ORIGIN), None, ai, &mut oa);
+        let pa = observe(|| zfr::parsed_obs(route_a, &a, &opts, "raw"));
         zf::tick(&zf::show(&b));
-        let rb = outcome(&b, Some(ORIGIN), None);
+        let rb = outcome_via(route_b, &b, Some(ORIGIN), None, ai, &mut ob);
+        let pb = observe(|| zfr::parsed_obs(route_b, &b, &opts, "raw"));
         if ra == rb { meta_equal += 1; }
         tw.event(json!({"ev": "meta", "a": json_bytes(&a), "b": json_bytes(&b),
-                        "origin": json_bytes(ORIGIN), "class": -1, "ra": ra, "rb": rb}));
+                        "origin": json_bytes(ORIGIN), "class": -1, "ra": ra, "rb": rb,
+                        "ai": ai, "routes": [route_a, route_b], "offs_a": oa, "offs_b": ob, "pa": pa, "pb": pb}));
     }
     let n = tw.finish();
     println!("RECORDED {}", json!({"events": n, "inputs": n_total, "ok": oks, "err": errs, "panics": panics,
